@@ -33,6 +33,15 @@ pub assume_specification<T>[ std::mem::replace ](x: &mut T, v: T) -> (r: T)
   ensures r == *old(x), *final(x) == v;
 pub assume_specification<T>[ Option::<T>::or ](o: Option<T>, p: Option<T>) -> (r: Option<T>)
   ensures r == (if o is Some { o } else { p });
+#[verifier::allow(undeclared_external_trait)]
+pub assume_specification<T, P>[ Option::<T>::filter ](o: Option<T>, p: P) -> (r: Option<T>)
+  where P: FnOnce(&T) -> bool + std::marker::Destruct, T: std::marker::Destruct
+  requires o is Some ==> p.requires((&o->0,)),
+  ensures o is None ==> r is None,
+    o is Some ==> exists |b: bool| #[trigger] p.ensures((&o->0,), b) && r == (if b { o } else { None });
+pub uninterp spec fn duration_as_millis(d: core::time::Duration) -> u128;
+pub assume_specification[ core::time::Duration::as_millis ](d: &core::time::Duration) -> (r: u128)
+  ensures r == duration_as_millis(*d);
 pub uninterp spec fn duration_is_zero(d: core::time::Duration) -> bool;
 pub assume_specification[ core::time::Duration::is_zero ](d: &core::time::Duration) -> (r: bool)
   ensures r == duration_is_zero(*d);
